@@ -955,7 +955,7 @@ def order_outcomes(rng, family, call):
 
 
 # ---- the correspondence shared by C05 and C06 --------------------------------------------------------
-def correspond(run, pairs, what_violation, what_prop):
+def correspond(run, pairs, what_violation, what_prop, judge=None):
     """pairs: iterable of (family, call).  Runs the real runner, evaluates Model/Resolution.call inside Coq
     on the same input and reports disagreements."""
     cases, meta = [], []
@@ -985,8 +985,15 @@ def correspond(run, pairs, what_violation, what_prop):
         sp = spec_resolve(family, call)
         data = {"family": family, "call": call, "observed": obs, "log": log,
                 "required_by_documented_rules": sp[0], "required_log": sp[1]}
-        if [obs, log] != [sp[0], sp[1]]:
-            run.fail("violation", what_violation(obs, log, sp), data)
+        if judge is not None:
+            verdict = judge(family, call, obs, log, sp)
+        else:
+            verdict = what_violation(obs, log, sp) if [obs, log] != [sp[0], sp[1]] else None
+        if isinstance(verdict, tuple):          # (kind, what, extra data) decided by the property module
+            data.update(verdict[2])
+            run.fail(verdict[0], verdict[1], data)
+        elif verdict is not None:
+            run.fail("violation", verdict, data)
         else:
             run.fail("mismatch", "Model/Resolution.v and runner.py disagree on a call (the python rules oracle agrees with runner.py)", data)
     return len(cases)
